@@ -328,12 +328,15 @@ func parseContractFile(path, pkgDir string, src []byte) (*ContractFile, error) {
 			default:
 				return nil, fmt.Errorf("%s:%d: unknown loop clause %q", path, lineNo, skw)
 			}
-		case "callback":
+		case "callback", "result-callback":
 			j := strings.Index(rest, ":")
 			if j < 0 {
 				return nil, fmt.Errorf("%s:%d: callback NAME: ...", path, lineNo)
 			}
 			name := strings.TrimSpace(rest[:j])
+			if kw == "result-callback" {
+				name = "result:" + name
+			}
 			cb := cur.Cbs[name]
 			if cb == nil {
 				cb = &CbSpec{Name: name}
@@ -837,12 +840,7 @@ func (g *genCtx) generate(cf *ContractFile) (string, error) {
 				}
 			case "cbrequires", "cbensures":
 				// parameters of the callback; they join level 1 (state at the call)
-				var cbsig *types.Signature
-				for i := 0; i < sig.Params().Len(); i++ {
-					if sig.Params().At(i).Name() == cl.Callback {
-						cbsig, _ = sig.Params().At(i).Type().Underlying().(*types.Signature)
-					}
-				}
+				cbsig := findCbSig(sig, cl.Callback)
 				if cbsig == nil {
 					return "", fmt.Errorf("%s:%d: no function-typed parameter %s", cf.Path, cl.Line, cl.Callback)
 				}
@@ -974,12 +972,7 @@ func (g *genCtx) generate(cf *ContractFile) (string, error) {
 		}
 		for name, cb := range c.Cbs {
 			l1 := append([]nameType(nil), vars...)
-			var cbsig *types.Signature
-			for i := 0; i < sig.Params().Len(); i++ {
-				if sig.Params().At(i).Name() == name {
-					cbsig, _ = sig.Params().At(i).Type().Underlying().(*types.Signature)
-				}
-			}
+			cbsig := findCbSig(sig, name)
 			if cbsig == nil {
 				return "", fmt.Errorf("%s:%d: no function-typed parameter %s", cf.Path, c.Line, name)
 			}
@@ -1018,7 +1011,7 @@ func (g *genCtx) generate(cf *ContractFile) (string, error) {
 	text := body.String()
 	var imps []string
 	for name, path := range g.imports {
-		if g.used[name] || regexp.MustCompile(`\b`+regexp.QuoteMeta(name)+`\.`).MatchString(text) {
+		if regexp.MustCompile(`\b`+regexp.QuoteMeta(name)+`\.`).MatchString(text) {
 			imps = append(imps, fmt.Sprintf("\t%s %q\n", name, path))
 		}
 	}
@@ -1036,6 +1029,35 @@ func (g *genCtx) generate(cf *ContractFile) (string, error) {
 	}
 	out.WriteString(text)
 	return out.String(), nil
+}
+
+// findCbSig finds the signature of a callback: a function-typed parameter, or ("result:NAME") the function-typed
+// parameter NAME of the function value the target returns (iterators).
+func findCbSig(sig *types.Signature, name string) *types.Signature {
+	if strings.HasPrefix(name, "result:") {
+		if sig.Results().Len() != 1 {
+			return nil
+		}
+		rs, ok := sig.Results().At(0).Type().Underlying().(*types.Signature)
+		if !ok {
+			return nil
+		}
+		want := strings.TrimPrefix(name, "result:")
+		for i := 0; i < rs.Params().Len(); i++ {
+			if rs.Params().At(i).Name() == want || rs.Params().Len() == 1 {
+				cs, _ := rs.Params().At(i).Type().Underlying().(*types.Signature)
+				return cs
+			}
+		}
+		return nil
+	}
+	for i := 0; i < sig.Params().Len(); i++ {
+		if sig.Params().At(i).Name() == name {
+			cs, _ := sig.Params().At(i).Type().Underlying().(*types.Signature)
+			return cs
+		}
+	}
+	return nil
 }
 
 func sanitize(s string) string {
